@@ -11,6 +11,7 @@
 pub struct Span { pub start: usize, pub end: usize }
 pub struct Msg { pub id: u64 }
 pub struct Opaque { pub id: u64 }
+#[derive(Debug)]
 pub struct Str { pub id: u64 }
 pub struct KeyString { pub id: u64 }
 
